@@ -64,6 +64,7 @@ def render_once(prog, classes, w, budget, fault_at=None, exc_kind=0, keep_refs=N
     ctx = Context(data)
     refs = {"context": weakref.ref(ctx), "sentinel": weakref.ref(sent)}
     del sent, data
+    layers_before = [(id(d), dict(d)) for d in ctx.dicts]
     w.begin_op(fault_at=fault_at, exc_kind=exc_kind)
     res = None
     try:
@@ -91,8 +92,17 @@ def render_once(prog, classes, w, budget, fault_at=None, exc_kind=0, keep_refs=N
         res = ("hang", "RecursionError")
     except Exception as e:
         res = ("err", type(e).__name__, str(e), e)
-    del ctx
+    # the variable layers of the caller's Context must be as the caller left them, whether the render returned or raised
+    layers_after = [(id(d), dict(d)) for d in ctx.dicts]
+    LAST_CTX_PROBLEM[0] = None
+    if layers_after != layers_before:
+        LAST_CTX_PROBLEM[0] = f"{len(layers_before)} layers before, {len(layers_after)} after; extra keys: " \
+            f"{sorted(set(k for _, d in layers_after for k in d) - set(k for _, d in layers_before for k in d))}"
+    del ctx, layers_before, layers_after
     return res, refs
+
+
+LAST_CTX_PROBLEM = [None]
 
 
 def path_names(msg):
@@ -239,6 +249,9 @@ def run(ch, params, decoded=False):
             fired = None
             w.main.fired = None
             if violations:
+                break
+            if LAST_CTX_PROBLEM[0]:
+                violate("CALLER-CONTEXT", ["failing-render"], dict(extra, what="the caller's Context was left modified by the failed render: " + LAST_CTX_PROBLEM[0]))
                 break
             exc_ref = check_after("failing-render", before, refs, res, extra)
             res = None
